@@ -437,6 +437,10 @@ fn table_dispatch(ctx: &Ctx, arg: &dyn Fn(&str) -> Option<String>) {
 						}
 					}
 				}
+				// keys this build IMPORTED (the table keys: OpenSSL PKCS#8 v1 Ed25519 / EC / RSA among them), exported again
+				for k in &keys {
+					lines.push_str(&format!("{} {} {} {}\n", k.alg, crate::util::hex(&k.kp.serialize_der()), crate::util::hex(k.kp.public_key_raw()), crate::util::hex(k.kp.serialize_pem().as_bytes())));
+				}
 				let _ = std::fs::write(std::path::Path::new(&dir).join(format!("exported-{}.txt", crate::BACKEND)), lines);
 			}
 		},
@@ -496,6 +500,11 @@ fn table_dispatch(ctx: &Ctx, arg: &dyn Fn(&str) -> Option<String>) {
 					for (how, r) in [
 						("try_from", crate::guard(|| rcgen::KeyPair::try_from(der.as_slice()).map_err(|e| e.to_string()))),
 						("from_pem", crate::guard(|| rcgen::KeyPair::from_pem(&pem).map_err(|e| e.to_string()))),
+						(
+							"from_pkcs8_der_and_sign_algo",
+							crate::guard(|| rcgen::KeyPair::from_pkcs8_der_and_sign_algo(&pki_types::PrivatePkcs8KeyDer::from(der.clone()), alg).map_err(|e| e.to_string())),
+						),
+						("from_pem_and_sign_algo", crate::guard(|| rcgen::KeyPair::from_pem_and_sign_algo(&pem, alg).map_err(|e| e.to_string()))),
 					] {
 						match r {
 							Ok(Ok(kp)) => {
